@@ -101,6 +101,7 @@ class Target:
         self.orphaned = []  # connections whose session went away without a Forward Close
         self.refused = []  # ('large'|'std', status) for each refused Forward Open
         self.fo_log = []  # ('large'|'std', size, accepted)
+        self.ever_granted = set()  # session handles that were granted at least one connection id
         self.endpoints = []
         self.tcp_no = 0
         self.ep = None  # endpoint whose frame is being processed
@@ -274,6 +275,9 @@ class Target:
         # connected
         if not any(c.session == fr.session for c in self.connections.values()):
             self.event("C10/I1/unitdata-without-connection", f"SendUnitData although no connection is open for session {fr.session:#x} (address item {ad.hex()!r})")
+            if fr.session not in self.ever_granted:
+                # not a stale id either: this session was never granted any connection id, the address item cannot hold "the target's connection id"
+                self.event("C11/connection-id", f"SendUnitData with address item {ad.hex()!r} although no connection id was ever granted to session {fr.session:#x}")
         if at != W.ITEM_CONNECTED_ADDR or len(ad) != 4:
             self.event("C11/cpf-address-item", f"SendUnitData address item type {at:#06x} length {len(ad)}")
             return self._err(fr, 0x0003)
@@ -420,9 +424,10 @@ class Target:
             self.refused.append((kind, 0x01))
             self.fo_log[-1] = (kind, size, False, fr.session)
             return W.build_mr_reply(req.service, 0x01, [0x0109], struct.pack("<HHI", serial, vendor, orig_serial) + b"\x00\x00")
-        for c in self.connections.values():
+        # a connection that lost its session without a Forward Close lingers in the target until it times out: its triple stays in use
+        for c in list(self.connections.values()) + list(self.orphaned):
             if (c.serial, c.vendor, c.orig_serial) == (serial, vendor, orig_serial):
-                self.event("C10/duplicate-forward-open", "Forward Open for a connection triple that is already open")
+                self.event("C10/duplicate-forward-open", "Forward Open for a connection triple that is already open" + ("" if c in self.connections.values() else " (a connection left behind earlier, not yet timed out)"))
                 self.refused.append((kind, 0x01))
                 self.fo_log[-1] = (kind, size, False, fr.session)
                 return W.build_mr_reply(req.service, 0x01, [0x0100], struct.pack("<HHI", serial, vendor, orig_serial) + b"\x00\x00")
@@ -433,6 +438,7 @@ class Target:
         if self.keep_seqs:
             conn.seqs = []
         self.connections[cid] = conn
+        self.ever_granted.add(fr.session)
         self.fo_log[-1] = (kind, size, True, fr.session)
         data = struct.pack("<IIHHI", cid, t2o_req, serial, vendor, orig_serial) + struct.pack("<II", o2t_rpi, t2o_rpi) + b"\x00\x00"
         return W.build_mr_reply(req.service, 0, [], data)
@@ -530,5 +536,12 @@ class IdentityDevice:
                 status, ext, data = r
                 return W.build_mr_reply(req.service, status, ext, data)
         if req.path[:1] == [("class", 1)] and req.service == 0x01:
-            return W.build_mr_reply(req.service, 0, [], W.identity_body(self.target.identity))
+            # a chassis with several modules: the identity that answers is the one of the module the route leads to
+            topo = getattr(self.target, "identity_by_route", None)
+            idn = self.target.identity
+            if topo is not None and info.get("route") is not None:
+                idn = topo.get(tuple(tuple(x) for x in info["route"]))
+                if idn is None:
+                    return W.build_mr_reply(req.service, 0x01, [0x0312])  # link address not valid: nothing lives there
+            return W.build_mr_reply(req.service, 0, [], W.identity_body(idn))
         return W.build_mr_reply(req.service, 0x08)
